@@ -30,6 +30,10 @@ CHECKS = {
          "exploration over operation histories (full / incremental / removal / failing texts)", "stored description is read through the exported Kc field because no public accessor exists", "4 C08"),
  "C18": ("exploration", "E1 generator + reference interpreter", "runtime monitoring: sequenced observer events of generated conc blocks (exactly-once, join before the next statement with laggard holds, visibility of assignments, error propagation, no late events)",
          "exploration over member mixes, failing subsets and GOMAXPROCS", "members touch disjoint state; holds only provoke", "4 C18"),
+ "C20": ("exploration", "line-citation monitor", "runtime monitoring: generated multi-line texts with exactly one faulty construct on a known line; every 'line N, column' citation in the returned error is compared with that line, must-cite classes must cite",
+         "exploration over fault classes x enclosing statement kinds x placements, full and incremental installs", "this is the only check that reads error texts (the property is about them); the citation pattern is a regexp", "4 C20"),
+ "C10": ("exploration", "compile fuzzer", "runtime monitoring: differential fuzzing of the five compile entry points (token-level mutants, valid texts, raw bytes) with before/after observation of the installed rule set through executions and queries",
+         "exploration; crash and hang of a compile entry point are violations (child processes with journals)", "accept/reject is compared across entry points, error texts are not inspected", "4 C10"),
  "C15": ("exploration", "E2 trace monitor", "runtime monitoring: rules sharing local names, readers-before-write must fault and writers must get their own value back, in every model, repeated calls and concurrent duplicates",
          "exploration", "a leak must change a returned value or let a reader succeed to be seen", "4 C15"),
 }
@@ -67,6 +71,8 @@ def main():
         "engines": [
             {"name": "E2 trace monitor", "path": "harness/trace", "serves_properties": ["C04","C05","C11","C12","C13","C14","C15"], "kind_free_text": "observer-function event log + specification-table oracle over real engine/pool calls"},
             {"name": "E1 generator + reference interpreter", "path": "harness/gen + harness/e1", "serves_properties": ["C01","C02","C03","C18"], "kind_free_text": "typed AST generator, printer and independent reference interpreter; differential monitor over real executions"},
+            {"name": "line-citation monitor", "path": "harness/linecite", "serves_properties": ["C20"], "kind_free_text": "single-fault text generator + citation oracle"},
+            {"name": "compile fuzzer", "path": "harness/cfuzz", "serves_properties": ["C10"], "kind_free_text": "token-level mutation fuzzer, five-entry-point differential driver"},
             {"name": "algebra histories", "path": "harness/algebra", "serves_properties": ["C08"], "kind_free_text": "model-based operation histories on a RuleBuilder"},
         ],
         "checks": checks,
